@@ -121,6 +121,18 @@ def run (c : Cfg) (dry : Bool) (store : Store) (pol : Policy) (nowNs : Int) : St
   (if dry then store else store.filter (fun f => !selected c store pol cutoff f),
    { cutoff := cutoff, rows := rowCount sel, files := sel.length, meas := measurements c.dts store pol })
 
+/-- `handleExecute` (HTTP): the body's `dry_run` / `confirm` flags (absent = false). Which field
+decides "dry run" is GENERATED from the source (`DryGate`). `none` = 400 "confirmation required". -/
+def execHttp (g : Arc.Generated.C11.DryGate) (c : Cfg) (dryFlag confirm : Bool)
+    (store : Store) (pol : Policy) (nowNs : Int) : Store × Option Report :=
+  match g with
+  | .reqDryRun =>
+    if !dryFlag && !confirm then (store, none)
+    else ((run c dryFlag store pol nowNs).1, some (run c dryFlag store pol nowNs).2)
+  | .notConfirm =>
+    if !confirm && !dryFlag then (store, none)
+    else ((run c (!confirm) store pol nowNs).1, some (run c (!confirm) store pol nowNs).2)
+
 /-- `handleCreate` validation -/
 def policyValid (pol : Policy) : Bool := decide (0 < pol.ret) && decide (pol.buf < pol.ret)
 
